@@ -33,38 +33,40 @@ def halvings(w, h, levels):
 def step_exact(o, before, after, eps):
     """The exactness clauses of C12 for ONE refinement call (before: cells and flags when the call was made)."""
     if o[0] == "refine":
+        # the pieces of a cell are found by geometry: the position of a cell in the list is not part of the property
         t, levels = o[1], o[2]
-        pos = 0
+        total = 0
         for p in before:
+            pb = ac.cbox(p)
+            kids = [c for c in after if ac.ovl(pb, ac.cbox(c)) > 0]
+            total += len(kids)
             if ac.splittable(p, t):
-                kids = after[pos:pos + 2 ** levels]
-                pos += 2 ** levels
-                pb = ac.cbox(p)
                 if len(kids) != 2 ** levels:
                     return "refine: a cell that must be split did not become 2^levels cells"
                 shapes = halvings(core.frac(p["rect"]["w"]), core.frac(p["rect"]["h"]), levels)
                 for c in kids:
                     b = ac.cbox(c)
                     if not (b[0] >= pb[0] and b[1] >= pb[1] and b[2] <= pb[2] and b[3] <= pb[3]):
-                        return "refine: cells are not emitted in place of the cell they were cut from"
+                        return "refine: a piece is not inside the cell it was cut from"
                     if (core.frac(c["rect"]["w"]), core.frac(c["rect"]["h"])) not in shapes:
                         return "refine: pieces are not obtained by repeatedly halving the longer side"
+                    if ac.carea(c) * 2 ** levels != ac.carea(p):
+                        return "refine: the 2^levels cells are not equal parts of the original"
                     if c["depth"] != p["depth"] + levels:
                         return "refine: depth not raised by the number of levels"
                 if sum(ac.carea(c) for c in kids) != ac.carea(p):
                     return "refine: the 2^levels cells are not equal parts of the original"
             else:
-                if pos >= len(after) or after[pos] != p:
+                if len(kids) != 1 or ac.canon_cell(kids[0]) != ac.canon_cell(p):
                     return "refine: a cell that must not be split was changed"
-                pos += 1
-        if pos != len(after):
+        if total != len(after):
             return "refine: unexpected extra cells"
     elif o[0] == "uniform":
         md = max(c["depth"] for c in before)
         for c in after:
             if not c["rect"]["fixed"] and c["depth"] != md:
                 return "uniform refinement: a refinable cell does not end at the former maximum depth"
-        if len({c["depth"] for c in before}) == 1 and after != before:
+        if len({c["depth"] for c in before}) == 1 and not ac.same_cells(after, before):
             return "uniform refinement changed an allocation that already had uniform depth"
     else:
         xs = sorted({v for c in before for v in (ac.cbox(c)[0], ac.cbox(c)[2])})
@@ -115,7 +117,7 @@ def oracle_hist(case, obs):
                 return f"{why} (step {n} of a history on shared objects)"
             if o[0] != "refine":
                 continue
-            key, what, ans = (st["k"], core.frac(o[1]), epoch), "refine", st["new"] != st["src"]
+            key, what, ans = (st["k"], core.frac(o[1]), epoch), "refine", not ac.same_cells(st["new"], st["src"])
         else:
             continue
         for w0, a0, n0 in said.get(key, []):
